@@ -52,6 +52,42 @@ CHECKS = {
             'leave no other freedom; widths up to 6/8, pop counts up to 12/20 inputs, saturate_at 0..6.',
             'Saturating specification: top bit set iff true sum >= 2^(saturate_at-1), exact when clear (what '
             'assert_k_of_n relies on). Trusts z3/CryptoMiniSat and vf/sat.py.', '6 C12'),
+    'C13': (OT, 'B', 'CrossHair bounded symbolic execution of the real unranking functions with the index symbolic; '
+                     'left-inverse (ranking) postconditions and pairwise-distinct postconditions; reachability twins',
+            'For each parameter tuple in the bound, CrossHair confirms over all paths that every index in [0,N) yields a '
+            'well-formed arrangement that an independent ranking function maps back to the index (mixed radix, '
+            'combinations, combinations without replacement, permutation prefixes) or that differs from every other '
+            'index (prefixes of permutations with copies, uniform and per-element, fresh and primed memo); N is a '
+            'brute-force count that the library counting function must equal.',
+            'Trusts CrossHair 0.0.110 + z3 and the harness ranking/counting code; parameter tuples are enumerated, '
+            'the index is symbolic. Larger parameters are outside.', '6 C13'),
+    'C16': (OT, 'A+B', 'documented trial-count arithmetic (reference semantics rule 1) against the real constructors over '
+                       'the design corpus; sequence lengths for all models via C01/C02, sampled per strategy here',
+            'For every descriptor of the corpus (incl. Nest designs and the mode x alignment grid) '
+            'block.trials_per_sample() must equal the documented arithmetic; 2 sequences per strategy are checked for '
+            'length. The for-all-models statement about lengths is part of R in C01/C02/C04.',
+            'This check compares integers per design (enumeration over designs); the solver-decided part of the '
+            'property is carried by C01/C02. Reference arithmetic in vf/ref.py is trusted.', '6 C16'),
+    'C24': (TV, 'A', 'projection inclusion between two real compiled formulas, both directions, decided by SMT after the '
+                     'definability closure; no reference semantics',
+            'For each design and documented law (MultiCrossBlock = Merge of CrossBlocks for every mode x alignment the '
+            'constructors accept, Repeat = Merge REPEAT/EQUAL_PREAMBLE, Repeat(b,[]) = Merge([b]) = b, CrossBlock = '
+            'MultiCrossBlock([c]) WEIGHT) both sides are built from fresh objects and proved to have the same trial '
+            'sequences over all assignments; trial counts and refusals must agree.',
+            'Trusts z3/CryptoMiniSat and vf/sat.py; variables are matched through the two real variable tables.', '6 C24'),
+    'C25': (TV, 'A', 'SMT equality of the compiled Nest formula with the reference (rule 8) in both directions; '
+                     'associativity by projection inclusion',
+            'Nest designs without preambles (inner Multi/Repeat, nested Nest, constraints on inner/outer/Nest) are proved '
+            'sound and complete against the documented group semantics, the trial count is the product, and '
+            'Nest(Nest(a,b),c) = Nest(a,Nest(b,c)) is decided by inclusion both ways.',
+            'Reference rule 8 in vf/ref.py; run-length constraints on the outer block are outside (undocumented units).',
+            '6 C25'),
+    'C26': (TV, 'A', 'SMT equality of compiled formula and reference with per-repetition vs global constraint windows; '
+                     'discrimination by projection inclusion between the two placements',
+            'Each constraint kind is placed on the inner block and on the combinator under Repeat (with and without a '
+            'preamble), Merge and Nest; both placements are proved equal to the reference scopes, and the two placements '
+            'are shown to differ (a sat inclusion query) so a collapse of the scopes cannot pass.',
+            'Reference rule 6 in vf/ref.py; trial counts that are not whole repetitions are outside.', '6 C26'),
     'C28': (TV, 'A', 'independent OPB reader to z3 linear constraints; SMT equivalence with the real SAT encoding '
                      '(closure for exists-aux) and with the pseudo-Boolean meaning; blocking constraint equivalence',
             'For a sweep of requests (EQ/LT/GT, n<=5/7, k<=n+2) and seeded random clause sets with requests, the text '
